@@ -161,7 +161,7 @@ class C06(verif.Spec):
     prop = "C06"
     comp = "mux"
     lean_modules = ["ZvbiModel.Props.C06", "ZvbiModel.Props.C06Join", "ZvbiModel.Props.C06Raw", "ZvbiModel.Props.C06Ts",
-                    "ZvbiModel.Props.C06CorRaw", "ZvbiModel.Props.C06Undef", "ZvbiModel.Props.C06CorRawHist"]
+                    "ZvbiModel.Props.C06CorRaw", "ZvbiModel.Props.C06Undef", "ZvbiModel.Props.C06CorRawHist", "ZvbiModel.Props.C06Fill", "ZvbiModel.Props.C06Hdr", "ZvbiModel.Props.C06UndefDemux"]
     harness = "mux_harness"
     harness_link_lib = True
     timeout_per_case = 5.0
@@ -171,10 +171,12 @@ class C06(verif.Spec):
                     "vbi_dvb_multiplex_sliced; vbi_dvb_multiplex_raw for all arguments (Props/C06CorRaw.lean); the round trip through "
                     "C07's model of the library demultiplexer is proved for the PES path (Props/C06Join.lean) and the TS path "
                     "(Props/C06Ts.lean: foreign packets interleaved, any feed partition, any start counter), frames of defined sliced "
-                    "lines; lines with the undefined line number 0 are judged by the --demux oracle (open for frames without raw line "
-                    "requests, false with them: finding C06-D4, Props/C06Undef.lean)")
+                    "lines; lines with the undefined line number 0: proved at packet / demux_pes_packet_frame level (Props/C06UndefDemux.lean), the "
+                    "stream-level statement is open and judged by the --demux oracle (finding C06-D4, fixed in /repo b67fe9c: Props/C06Undef.lean); "
+                    "round 6: the size computation of generate_pes_packet exists in two source shapes (Generated/MuxFlags.lean muxBumpBothPaths, "
+                    "Props/C06Fill.lean), PES header constants and the PTS coding are tied to the source (Generated/MuxConsts.lean, Props/C06Hdr.lean)")
     open_statements = [
-        "mux_demux_roundtrip_undef_full (Props/C06Join.lean): the library round trip for frames WITHOUT raw line requests that also carry Teletext lines with the undefined line number 0 - not proved: the field parity the multiplexer writes for such a line (from its last_line, which only grows inside one insert_sliced_data_units call) is not recorded by EnParse.Line, and C07's Demux/Join{Units,Frame} lemmas (frames_of_pesStream) cover defined lines only; proved without such lines as mux_demux_roundtrip_lib / mux_demux_roundtrip_ts, an instance with an undefined line as undef_without_raw_roundtrip; for frames WITH a raw line request (selected or masked out) before the undefined line the statement is FALSE on the current code: undef_after_raw_frame_lost (finding C06-D4, corpus/C06/undef-after-raw-field.ops; true again on the tree with fixes/C06-mux-undef-field-after-raw.diff: undef_after_raw_repaired); judged on the real code by the --demux oracle",
+        "mux_demux_roundtrip_undef_full (Props/C06Join.lean): the library round trip over whole streams for frames WITHOUT raw line requests that also carry Teletext lines with the undefined line number 0 - still not proved as a whole. Proved since round 6 (Props/C06UndefDemux.lean, both shapes of line_address): for every accepted frame whose first selected line is defined, extract_data_units on the frame's packet stores exactly the selected lines in order, undefined ones with line number 0, without 'illegal line order' (demux_extract_undef_packet_partial), and demux_pes_packet_frame on that packet either starts the frame (new_frame) or delivers the frame under assembly with its PTS and lines when the packet's first line does not exceed that frame's last defined line, then holds the new frame (demux_frame_undef_partial); chain: undef_field_parity_ascends + generatePes_defasc (defined line numbers ascend, zeros skipped) => contUnits_of_fields => extractLoop_stores_cont (line_address' line_offset-0 branch, lineAddress_undef). STILL MISSING: lifting these per-packet facts through vbi_dvb_demux_feed over whole streams (PES header parsing, wrap-around buffer, any partition of the input, the held last frame): C07's Demux/Join{Packet,Stream}.lean (frames_of_pesStream) run over EnParse.pesStream, whose Line does not record the field parity, and are stated for AscFrom (all lines defined) only; a units-level variant of that induction is needed. For frames WITH a raw line request before the undefined line the statement was FALSE on the tree before b67fe9c (finding C06-D4, corpus/C06/undef-after-raw-field.ops; undef_after_raw_frame_lost / undef_after_raw_repaired); judged on the real code by the --demux oracle",
         "mux_current_shape_F29: on the tree without fixes/C06-mux-raw-last-stuffing.diff mux_never_aborts fails (f29_counterexample); /repo has the fix since b15a657; all other raw theorems hold for both shapes"]
     assumptions = ["callers pass vbi_sliced arrays of the stated length; callback is non-NULL",
                    "the raw frame holds the sp->count[0] + sp->count[1] lines of bytes_per_line bytes the caller declares (RawHolds)",
@@ -182,7 +184,8 @@ class C06(verif.Spec):
                    "harness fixes them), offset / bytes_per_line / start / count / interlaced free"]
     trusted_base = ["harness/mux_harness.c + lean/Driver/Mux.lean (correspondence of feed/feedraw/cor/corraw/multiplex_sliced/multiplex_raw/encode_stuffing)",
                     "Mux/Spec.lean EnParse and Mux/RawSpec.lean: my transcription of EN 300 472 / EN 301 775 (4.9 for raw units) / ISO 13818-1",
-                    "translate/gen_muxflags.py -> Generated/MuxFlags.lean (source shapes of generate_pes_packet / insert_sliced_data_units: muxKeepsLastDuSize, muxSegLastLine; a stale flag shows as an unpredicted crash or a correspondence disagreement)",
+                    "translate/gen_muxflags.py -> Generated/MuxFlags.lean (source shapes of generate_pes_packet / insert_sliced_data_units: muxKeepsLastDuSize, muxSegLastLine, muxBumpBothPaths; a stale flag shows as an unpredicted crash or a correspondence disagreement)",
+                    "translate/gen_muxconsts.py -> Generated/MuxConsts.lean (PES header constants, PTS shifts, data_identifier ranges read from dvb_mux.c / dvb.h; Props/C06Hdr.lean ties the model to them)",
                     "constants of sliced.h/dvb.h compared op `consts` on every run"]
 
     # ------------------------------------------------------------------ generators
@@ -201,7 +204,92 @@ class C06(verif.Spec):
         # round 5: undefined-line Teletext behind a raw line request (finding C06-D4 when the lines before are on the second field)
         for _ in range(4 if tier == "quick" else 40):
             cases.append(self.case_undef_raw(rng))
+        # round 6: frames built to end 0..3 bytes short of min_packet_size / of the next multiple of 184, last data unit of
+        # every size class (seeded change C06-e: the 257 test applied on the round-up path only)
+        for _ in range(90 if tier == "quick" else 900):
+            cases.append(self.case_minfill(rng))
         return cases
+
+    def case_minfill(self, rng):
+        """data_identifier 0x99..0x9B (some 0x10..0x1F), min_packet_size raised, a frame whose header + data units end d = 0..3
+        bytes before min_packet_size (fill path) or before the next multiple of 184 above it (round-up path), and whose last
+        data unit is a raw unit of maximum size (257), a short raw unit, or a sliced unit of 46 / 16 / 5 bytes"""
+        ttx_pool = [8, 9, 10, 11, 12, 13, 14, 15, 17, 18, 19, 20, 22] + list(range(320, 335))
+        for attempt in range(1200):
+            if attempt % 150 == 0:
+                # the shape is fixed first (a class that is hard to build must not be under-represented), then built by retrying
+                cls = rng.choice(["raw257", "raw257", "raw257", "rawshort", "rawshort", "ttx", "wss", "vps", "cc"])
+                d = rng.choice([0, 1, 1, 1, 2, 3])
+                fill = rng.random() < 0.7
+            fixed = cls != "raw257" and rng.random() < 0.08
+            m = rng.randrange(2, 10)
+            mn = 184 * m if fill else 184 * rng.randrange(0, m)
+            T = 184 * m - d - 46
+            # fixed part: sliced lines
+            xs = [s for s in (("vps", 16, 16), ("cc", 21, 5), ("wss", 23, 5)) if rng.random() < 0.4 or s[0] == cls]
+            nraw, spl, rawlines = 0, 100, []
+            if cls == "raw257":
+                # 46 + 257 k n + 46 b + x = 184 m - d: solve for the number b of Teletext lines (d = 1 needs k n = 3, 6, 10, ..)
+                k = rng.choice([1, 1, 2]); nraw = rng.randrange(1, 11); spl = 251 * k
+                if fixed: continue
+                base = 46 + d + 257 * k * nraw + sum(x[2] for x in xs)
+                bs = [b for b in range(0, 20) if (base + 46 * b) % 184 == 0]
+                if not bs: continue
+                b = rng.choice(bs)
+                m = (base + 46 * b) // 184
+                mn = 184 * m if fill else 184 * rng.randrange(0, m)
+                free = [l for l in list(range(7, 24)) + list(range(320, 336)) if l not in [x[1] for x in xs]]
+                rawlines = rng.sample(free, nraw - 1) + [336]
+            else:
+                b = rng.randrange(0, 6) if rng.random() < 0.7 else rng.randrange(0, 20)
+                if cls == "ttx": b = max(b, 1)
+                S = 46 * (b + len(xs)) if fixed else 46 * b + sum(x[2] for x in xs)
+                R = T - S
+                if cls == "rawshort" or (R and rng.random() < 0.8):
+                    nraw = 1
+                    if fixed:
+                        if R <= 0 or R % 46: continue
+                        spl = 40 * (R // 46) - rng.randrange(0, 40)
+                        if not 1 <= spl <= 720: continue
+                    else:
+                        cand = [n for n in range(1, 721) if n + 6 * ((n + 250) // 251) == R and n % 251]
+                        if not cand: continue
+                        spl = cand[0]
+                    rawlines = [336] if cls == "rawshort" else [7]
+                elif R != 0: continue
+            pool = [l for l in ttx_pool if l not in rawlines]
+            if b > len(pool): continue
+            lines = [(rng.choice(TTX_IDS), l, payload(rng, 42)) for l in rng.sample(pool, b)]
+            for name, ln, _ in xs:
+                lines.append(({"vps": VPS, "cc": rng.choice([CC, CC1]), "wss": WSS}[name], ln, payload(rng, 13 if name == "vps" else 2)))
+            lines += [(VBI625, l, []) for l in rawlines]
+            lines.sort(key=lambda x: x[1])
+            last = lines[-1] if lines else None
+            if last is None: continue
+            want_last = {"raw257": VBI625, "rawshort": VBI625, "ttx": None, "wss": WSS, "vps": VPS, "cc": None}[cls]
+            if cls == "ttx" and last[0] not in TTX_IDS: continue
+            if cls == "cc" and last[0] not in (CC, CC1): continue
+            if want_last is not None and last[0] != want_last: continue
+            c = [self.new_line(rng), "dataid %d" % (rng.choice([0x10, 0x1F, 0x15]) if fixed else rng.choice([0x99, 0x9A, 0x9B]))]
+            mx = rng.choice([65504, 65504, 184 * (m + 1), 184 * (m + 2), 184 * m])
+            c.append("size %d %d" % (mn, mx))
+            pts = rng.randrange(2**33)
+            if nraw:
+                off = 132 + (rng.randrange(0, 721 - spl) if rng.random() < 0.5 else 0)
+                if rng.random() < 0.25:
+                    sizes = ",".join(str(rng.choice(BUFS)) for _ in range(rng.randrange(1, 4)))
+                    c.append("corraw %d 0xffffffff %s %d %d 7 17 320 17 %d 0 0 %s" % (pts, sizes, off, spl, rng.randrange(256), fmt_lines(lines)))
+                else:
+                    c.append("feedraw %d 0xffffffff %d %d 7 17 320 17 %d %s" % (pts, off, spl, rng.randrange(256), fmt_lines(lines)))
+            else:
+                c.append("feed %d 0xffffffff 0 %s" % (pts, fmt_lines(lines)))
+            c.append("feed %d 0xffffffff 0 %s" % (rng.randrange(2**33), fmt_lines([(3, 7, payload(rng, 42))])))
+            c.append("state")
+            self._minfill = getattr(self, "_minfill", {})
+            key = "%s/%s/short%d%s" % (cls, "fill" if fill else "round", d, "/fixed" if fixed else "")
+            self._minfill[key] = self._minfill.get(key, 0) + 1
+            return c
+        return self.case_raw(rng)
 
     def case_undef_raw(self, rng):
         """sliced frames (raw == NULL) holding a masked-out raw line request followed by a Teletext line with line number 0"""
@@ -312,6 +400,9 @@ class C06(verif.Spec):
         c = []
         if rng.random() < 0.7:
             c.append("dataid %d" % rng.choice([0x10, 0x1F, 0x99, 0x9A, 0x9B, 0x15, 0x99, 0x99]))
+            if rng.random() < 0.15:
+                # round 6: the edges of the two admitted ranges (rejected, the data_identifier stays what it was)
+                c.append("dataid %d" % rng.choice([0x0F, 0x20, 0x98, 0x9C, 0, 0xFF, 0x110]))
         if rng.random() < 0.7:
             mn = rng.choice([0, 184, 185, 368, 1000, 1472, 0, 0])
             mx = rng.choice([184, 368, 552, 1472, 1500, 1656, 2000]) if small or rng.random() < 0.9 else rng.choice([65504, 70000, 30000])
@@ -553,7 +644,12 @@ class C06(verif.Spec):
                 else:
                     szs = [int(x) for x in sizes.split(",")]
                     want = [size] if sim.pid == 0 else [188] * npk
-                    if szs != want: return "packet sizes %s, expected %s: feedraw" % (szs[:4], want[:4]), plan
+                    if szs != want:
+                        # round 6: the independent reader still gets the bytes, so that an illegal data unit is named as such
+                        b = bytes.fromhex(hexb) if hexb != "-" else b""
+                        if sim.pid and len(b) % 188 == 0: b = b"".join(b[k + 4:k + 188] for k in range(0, len(b), 188))
+                        plan.setdefault("rawpackets", []).append((i, hx(b), a["pts"] % 2**33, sim.dataid, size, items))
+                        return "packet sizes %s, expected %s: feedraw" % (szs[:4], want[:4]), plan
                 if not (sim.min <= size <= sim.max and size % 184 == 0): return "size outside bounds: feedraw", plan
                 b = bytes.fromhex(hexb)
                 if sim.pid:
@@ -812,7 +908,7 @@ class C06(verif.Spec):
                 if plan["pid"] == 0: ops.append("enparse pes " + hexb)
                 else: ops.append("enparse ts %d %d %s" % (plan["pid"], cc, hexb))
                 meta.append((case, plan, i, cc, pts, did, size, lines))
-        self.extra_coverage = {"enparse_packets": len(ops)}
+        self.extra_coverage = {"enparse_packets": len(ops), "minfill_shapes": dict(sorted(getattr(self, "_minfill", {}).items()))}
         if ops:
             p = subprocess.run(ctx["mcmd"], input=("\n".join(ops) + "\n").encode(), stdout=subprocess.PIPE, timeout=900)
             outs = p.stdout.decode().split("\n")
